@@ -47,4 +47,4 @@ class Error:
         return f'{name}(row={self.row}, col={self.col}, code={self.code})'
 
     def __hash__(self) -> int:
-        return hash((self.row, self.col, self.code))
+        return hash((self.row, self.col, self.code, self.value))
